@@ -18,7 +18,7 @@ _cache = {}
 COMPILER_REPLAYS = {
     "u_diagord": ["replay/c13/missing_methods/run.sh", "replay/c13/unknown_fields/run.sh"],
     "u_occurs": ["replay/c04/occurs/run.sh"],
-    "u_tmono": ["replay/c07/run.sh", "replay/c04/recursive_generic/run.sh"],
+    "u_tmono": ["replay/c07/run.sh", "replay/c04/recursive_generic/run.sh", "replay/c07/field_type_app.sh"],
     "u_mcall": ["replay/c07/call_instances.sh", "replay/c07/generic_value.sh"],
     "u_link": ["replay/c13/link_error/run.sh"],
     "u_art": ["replay/c15/foreign_core.sh"],
